@@ -222,7 +222,11 @@ macro_rules! register_window {
             loop {
                 match receiver.recv() {
                     Ok(content) => {
+                        #[cfg(kolibrie_verif)]
+                        crate::verif_hooks::yield_point("worker.before_process");
                         $processor(content);
+                        #[cfg(kolibrie_verif)]
+                        crate::verif_hooks::yield_point("worker.after_process");
                     }
                     Err(_) => {
                         debug!("Shutting down window {}!", $window_iri);
@@ -644,6 +648,8 @@ where
                 };
 
                 if let Some(window_result) = maybe_result {
+                    #[cfg(kolibrie_verif)]
+                    crate::verif_hooks::yield_point("coordinator.received");
                     debug!(
                         "Coordinator received {} results from window: {}",
                         window_result.results.len(),
@@ -680,6 +686,8 @@ where
                         cycle_triggered.insert(wr.window_iri.clone());
                     }
 
+                    #[cfg(kolibrie_verif)]
+                    crate::verif_hooks::yield_point("coordinator.drained");
                     if cycle_triggered.len() == num_windows {
                         // All windows fired this cycle
                         if cross_window_enabled {
